@@ -1,9 +1,16 @@
 """Family `pipe` (lead): the COMPOSED Lean pipeline (Model/Pipeline.lean: lex → parse → resolve → limits →
 analyses → run) against the real library pipeline on program TEXTS, plus the re-layout differential on
-the implementation. Used by c01.py, c07.py, c10.py, c14.py."""
-import binascii
+the implementation. Used by c01.py, c07.py, c09.py, c10.py, c14.py.
 
-from common import DRIVER, sh
+`nvh pipe run` answers inside a supervised worker: a text on which the implementation does not return
+(hang) or kills the process (abort) is answered `stage=hang` / `stage=abort:<status>` and reported as
+`ORACLE-FAIL … [C07]`; the stream continues (after 4 such cases the remaining requests are `unrun`)."""
+import binascii
+import os
+import re
+import time
+
+from common import DRIVER, VERIF, sh
 
 FAMILY = "pipe"
 DRIVER_FAMILIES = ["Pipe"]
@@ -17,10 +24,59 @@ def text_of(req):
         return ""
 
 
-def pipe_stream(ck, kind, n, label=None):
-    """kind: progs | layouts | mutants. Returns (requests, corr result)."""
-    reqs = ck.gen(FAMILY, ["--kind", kind, "--n", n])
+def front_request(text):
+    return f"front {binascii.hexlify(text.encode()).decode() or '-'}"
+
+
+def corpus_requests(prop, name="front.src"):
+    """`front` requests for the hand-written programs of corpus/<prop>/<name>: one program per line,
+    `\\n` for a newline, lines starting with `##` are comments."""
+    path = os.path.join(VERIF, "corpus", prop, name)
+    if not os.path.exists(path):
+        return []
+    out = []
+    for line in open(path, encoding="utf-8").read().split("\n"):
+        if line.strip() and not line.startswith("##"):
+            out.append(front_request(line.replace("\\n", "\n")))
+    return out
+
+
+def did_not_return(answer):
+    """`stage=hang`, `stage=abort:<status>`, `stage=panic@<site>`: the front end (or, for `src`, the
+    pipeline before the run) neither produced diagnostics nor a program."""
+    return answer.startswith(("stage=hang", "stage=abort", "stage=panic"))
+
+
+def crashes(ck):
+    """[(request, implementation answer)] collected by pipe_stream over all streams of this run."""
+    return getattr(ck, "pipe_crashes", [])
+
+
+def verdict(answer):
+    """What a `front` / `src` answer says about acceptance, without spans:
+    ("accepted",) | ("semantic", (sorted error categories)) | ("syntax",) | ("noreturn", kind) | ("other", text)."""
+    head = answer.split(" ", 1)[0]
+    if did_not_return(answer):
+        return ("noreturn", head.split("=", 1)[1].split("@")[0].split(":")[0])
+    if head in ("stage=accepted", "stage=run"):
+        return ("accepted",)
+    if head == "stage=syntax":
+        return ("syntax",)
+    if head == "stage=semantic":
+        m = re.search(r" diags=(\S+)", answer)
+        cats = sorted({(e.split(":") + ["?", "?", "?"])[2] for e in m.group(1).split(",")}) if m and m.group(1) != "-" else []
+        return ("semantic", tuple(cats))
+    return ("other", answer[:80])
+
+
+def pipe_stream(ck, kind, n, label=None, extra=()):
+    """kind: progs | layouts | mutants | parens | static | recfns. `extra`: request lines run first
+    (corpus). Returns (requests, corr result)."""
+    reqs = list(extra) + ck.gen(FAMILY, ["--kind", kind, "--n", n])
     res = ck.corr(FAMILY, reqs, label=label or f"pipe-{kind}", timeout=3600)
+    if not hasattr(ck, "pipe_crashes"):
+        ck.pipe_crashes = []
+    ck.pipe_crashes.extend((r, a) for r, a in zip(reqs, res["impl_lines"]) if did_not_return(a))
     stages = {}
     for r, a in zip(reqs, res["impl_lines"]):
         key = a.split(" ", 1)[0]
@@ -49,16 +105,18 @@ def one(ck, req):
     return (il[0] if il else "?"), (ml[0] if ml else "?"), fails
 
 
-def shrink_text(ck, req, still, budget=150):
-    """Line-wise then token-wise greedy deletion of the text of a `src`/`front` request."""
+def shrink_text(ck, req, still, budget=150, budget_s=240):
+    """Line-wise then token-wise greedy deletion of the text of a `src`/`front` request (at most `budget`
+    trials per pass and `budget_s` seconds in all: a trial on a hanging input costs seconds)."""
     kind = req.split()[0]
     text = text_of(req)
+    t0 = time.time()
     for sep in ("\n", " "):
         parts = text.split(sep)
         tries, chunk = 0, max(1, len(parts) // 2)
-        while chunk >= 1 and tries < budget:
+        while chunk >= 1 and tries < budget and time.time() - t0 < budget_s:
             i, changed = 0, False
-            while i < len(parts) and tries < budget:
+            while i < len(parts) and tries < budget and time.time() - t0 < budget_s:
                 cand = parts[:i] + parts[i + chunk:]
                 tries += 1
                 r = f"{kind} {binascii.hexlify(sep.join(cand).encode()).decode() or '-'}"
@@ -74,11 +132,20 @@ def shrink_text(ck, req, still, budget=150):
 
 def report(ck, what):
     """A `pipe` disagreement or oracle failure as a replay dict (shrunk), or None."""
+    crashed = crashes(ck)
+    if crashed:
+        return crash_report(ck, crashed)
     fails = [f for f in ck.oracle_fails if f.get("family") == FAMILY]
     if fails:
-        f = fails[0]
-        return {"kind": "impl-vs-oracle", "family": FAMILY, "what": f["what"][:500], "requests": [f["request"]],
-                "texts": [text_of(f["request"])]}
+        f = min(fails, key=lambda x: len(x["request"]))
+        req, msg = f["request"], f["what"][:500]
+        if req.split()[0] == "pair":
+            req = shrink_pair(ck, req)
+            a, b, errs = one(ck, req)
+            msg = next((l.split(" ", 2)[2] for l in errs if len(l.split(" ", 2)) == 3), msg)[:500]
+            return {"kind": "impl-vs-oracle", "family": FAMILY, "what": msg, "requests": [req], "texts": texts_of(req),
+                    "program": "\n----\n".join(texts_of(req)), "impl": a, "model": b, "failing_cases": len(fails)}
+        return {"kind": "impl-vs-oracle", "family": FAMILY, "what": msg, "requests": [req], "texts": texts_of(req)}
     d = first_disagreement(ck)
     if d is None:
         return None
@@ -93,13 +160,130 @@ def report(ck, what):
             "impl": a, "model": b}
 
 
+def texts_of(req):
+    """Every hex-encoded text of a request (a `pair` has two)."""
+    out = []
+    for h in req.split()[1:]:
+        try:
+            out.append("" if h == "-" else binascii.unhexlify(h).decode(errors="replace"))
+        except (binascii.Error, ValueError):
+            pass
+    return out
+
+
+def pair_request(a, b):
+    return f"pair {binascii.hexlify(a.encode()).decode() or '-'} {binascii.hexlify(b.encode()).decode() or '-'}"
+
+
+def _tokens(ck, text):
+    """Lexemes of a text (real lexer, through `nvh parse mkreq`), or None."""
+    import parselib
+    try:
+        rq = parselib.mkreq(ck, [text.encode()])
+    except Exception:  # noqa: BLE001
+        return None
+    if len(rq) != 1:
+        return None
+    lx = parselib.lexemes(rq[0])
+    return None if lx is None else [t.decode(errors="replace") for t in lx]
+
+
+def shrink_pair(ck, req, budget=160, budget_s=150):
+    """Shrink a failing `pair` whose second member is the first plus redundant parentheses around single
+    tokens (`gen --kind parens`, corpus/C10/pairs.src): ddmin over the tokens of the first member, the
+    second member rebuilt with the same parentheses around the surviving tokens; then parentheses are
+    dropped one at a time. A candidate counts only if the implementation still answers `differ` while
+    the MODEL answers `same` (parentheses are redundant only where the grammar says so: the model is the
+    judge of that, as in parselib.shrink_pair). Other pairs (re-layouts) are returned unchanged."""
+    t0 = time.time()
+    ta, tb = (texts_of(req) + ["", ""])[:2]
+    a, b = _tokens(ck, ta), _tokens(ck, tb)
+    if not a or not b or len(b) <= len(a):
+        return req
+    depth, j = [], 0
+    for t in a:
+        d = 0
+        while j < len(b) and b[j] == "(" and t != "(":
+            d, j = d + 1, j + 1
+        if j >= len(b) or b[j] != t:
+            return req
+        j += 1
+        for _ in range(d):
+            if j >= len(b) or b[j] != ")":
+                return req
+            j += 1
+        depth.append(d)
+    if j != len(b):
+        return req
+
+    def build(keep, dep):
+        x = " ".join(a[i] for i in keep)
+        y = " ".join("( " * dep[i] + a[i] + " )" * dep[i] for i in keep)
+        return pair_request(x, y)
+
+    tries = [0]
+
+    def fails(r):
+        tries[0] += 1
+        ia, ma, _ = one(ck, r)
+        return ia.startswith("differ") and ma == "same"
+
+    keep = list(range(len(a)))
+    if not fails(build(keep, depth)):
+        return req
+    chunk = max(1, len(keep) // 2)
+    while chunk >= 1 and tries[0] < budget and time.time() - t0 < budget_s:
+        i, changed = 0, False
+        while i < len(keep) and tries[0] < budget and time.time() - t0 < budget_s:
+            cand = keep[:i] + keep[i + chunk:]
+            if cand and any(depth[k] for k in cand) and fails(build(cand, depth)):
+                keep, changed = cand, True
+            else:
+                i += chunk
+        if not changed or chunk == 1:
+            chunk //= 2
+    dep = list(depth)
+    for k in keep:
+        if dep[k] and sum(1 for q in keep if dep[q]) > 1 and tries[0] < budget + 40:
+            trial = list(dep)
+            trial[k] = 0
+            if fails(build(keep, trial)):
+                dep = trial
+    for k in keep:
+        if dep[k] > 1:
+            trial = list(dep)
+            trial[k] = 1
+            if fails(build(keep, trial)):
+                dep = trial
+    return build(keep, dep)
+
+
+def crash_report(ck, crashed):
+    """The shortest text on which the implementation did not return, shrunk (same kind of failure)."""
+    req, ans = min(crashed, key=lambda x: len(x[0]))
+    kind = verdict(ans)[1]
+    if req.split()[0] in ("src", "front"):
+        def still(r):
+            a, _b, _ = one(ck, r)
+            return verdict(a) == ("noreturn", kind)
+        req = shrink_text(ck, req, still, budget=120, budget_s=150)
+    a, b, fails = one(ck, req)
+    what = {"hang": "the front end does not return on this text (no answer within the CPU limit of the worker)",
+            "abort": "the front end kills the process on this text (abort: memory exhausted / stack overflow)",
+            "panic": "the front end panics on this text"}.get(kind, "the front end did not return on this text")
+    return {"kind": "impl-vs-oracle", "family": FAMILY, "what": what, "requests": [req], "program": text_of(req),
+            "texts": [text_of(req)], "impl": a, "model": b, "oracle": fails[:3], "failing_cases": len(crashed)}
+
+
 def replay(ck, data):
     bad = 0
     for r in data.get("requests", []):
         if r.split()[0] not in ("src", "front", "pair"):
             continue
         a, b, fails = one(ck, r)
-        print(f"text: {text_of(r)!r}\n  implementation: {a}\n  model:          {b}")
+        for t in texts_of(r):
+            print(f"text: {t!r}")
+        print(f"  implementation: {a}\n  model:          {b}")
         for l in fails:
             print("  " + l)
         if a != b or fails:
